@@ -388,17 +388,56 @@ Proof.
   cbn [map]. rewrite rehash_clear, IH by assumption. f_equal. assumption.
 Qed.
 
+(* decodability (the GoldenTicket payload rule of Transaction::deserialize_from_net) *)
+Definition all_decodable (l : list tx) : Prop := forallb decodable l = true.
+
+Lemma receive_inv : forall l c, receive l = Ok c -> generate (wire l) = Ok c.
+Proof. intros l c H. unfold receive in H. destruct (forallb decodable (b_txs l)); [exact H|discriminate]. Qed.
+
+Lemma receive_ok : forall l, all_decodable (b_txs l) -> receive l = generate (wire l).
+Proof. intros l H. unfold receive. unfold all_decodable in H. rewrite H. reflexivity. Qed.
+
+Lemma merge_loop_decodable : forall fuel l l', merge_loop fuel l = Ok l' ->
+  forallb decodable l = true -> forallb decodable l' = true.
+Proof.
+  induction fuel as [|f IH]; intros l l' H Hd; destruct l as [|x [|y t]]; cbn [merge_loop] in H;
+    try discriminate; try (inversion H; subst; exact Hd).
+  cbn [forallb] in Hd. apply andb_true_iff in Hd as [Dx Hd]. apply andb_true_iff in Hd as [Dy Dt].
+  destruct (mergeable x y) eqn:Hm.
+  - destruct (2 ^ 32 <=? 2 * t_repl x); [discriminate|].
+    destruct (t_hfs x) as [a|]; [|discriminate]. destruct (t_hfs y) as [b|]; [|discriminate].
+    apply (IH _ _ H). cbn [forallb]. rewrite Dt.
+    change (decodable (merged x (2 * t_repl x) (Node a b))) with (decodable x). rewrite Dx. reflexivity.
+  - destruct (merge_loop f t) as [r| |s] eqn:Hr; cbn [bind] in H; try discriminate.
+    inversion H; subst. cbn [forallb]. rewrite Dx, Dy, (IH _ _ Hr Dt). reflexivity.
+Qed.
+
+Lemma pruned_decodable : forall ks l, forallb decodable l = true -> forallb decodable (map (prune1 ks) l) = true.
+Proof.
+  intros ks l. induction l as [|x t IH]; intro H; [reflexivity|].
+  cbn [forallb] in H. apply andb_true_iff in H as [Dx Dt].
+  cbn [map forallb]. rewrite (IH Dt). unfold prune1. destruct (touches ks x); [rewrite Dx|]; reflexivity.
+Qed.
+
+Lemma lite_decodable : forall b ks l, all_decodable (b_txs b) -> lite b ks = Ok l -> all_decodable (b_txs l).
+Proof.
+  intros b ks l Hd H. destruct (lite_inv _ _ _ H) as (txs & mr & Hm & _ & Ht & _).
+  unfold all_decodable. rewrite Ht. eapply merge_loop_decodable; [exact Hm|].
+  apply pruned_decodable. exact Hd.
+Qed.
+
 (* the block hash (and the whole header) survives the wire trip *)
 Lemma wire_hash : forall b ks l,
-  generated b -> root_consistent b ->
+  generated b -> root_consistent b -> all_decodable (b_txs b) ->
   (h_merkle_root (b_hdr b) = hzero -> b_txs b = []) ->
   lite b ks = Ok l ->
   exists c, receive l = Ok c /\ b_hash c = b_hash b /\ b_hdr c = b_hdr b.
 Proof.
-  intros b ks l [Hh _] Hc Hz H.
+  intros b ks l [Hh _] Hc Hdec Hz H.
   destruct (header_same _ _ _ Hc H) as [Hd Hhl].
   destruct (lite_inv _ _ _ H) as (txs & mr & Hm & _ & Ht & _).
-  unfold receive, generate, wire. cbn [b_hdr b_txs b_hash].
+  rewrite (receive_ok _ (lite_decodable _ _ _ Hdec H)).
+  unfold generate, wire. cbn [b_hdr b_txs b_hash].
   destruct (hv_eqb (h_merkle_root (b_hdr l)) hzero) eqn:E.
   - apply hv_eqb_eq in E. rewrite Hd in E. specialize (Hz E).
     rewrite Hz in Hm. cbn [map length merge_loop] in Hm. inversion Hm as [Hm'].
@@ -433,7 +472,7 @@ Proof.
   intros b ks l Hs [_ Hg] Ho H.
   pose proof (lite_txs_unmerged _ _ _ Hs (some_omitted_aligned _ _ Ho) H) as Ht.
   rewrite all_touched_id in Ht by exact Ho. split; [exact Ht|].
-  intros c Hc. unfold receive, generate, wire in Hc. cbn [b_hdr b_txs b_hash] in Hc.
+  intros c Hc. apply receive_inv in Hc. unfold generate, wire in Hc. cbn [b_hdr b_txs b_hash] in Hc.
   rewrite Ht, map_rehash_clear_generated in Hc by exact Hg.
   destruct (if hv_eqb _ _ then _ else _) as [mr| |s]; cbn [bind] in Hc; try discriminate.
   inversion Hc; reflexivity.
@@ -641,7 +680,7 @@ Qed.
 
 Lemma receive_txs : forall l c, receive l = Ok c -> b_txs c = map rehash (map clear_hfs (b_txs l)).
 Proof.
-  intros l c H. unfold receive, generate, wire in H. cbn [b_hdr b_txs b_hash] in H.
+  intros l c H. apply receive_inv in H. unfold generate, wire in H. cbn [b_hdr b_txs b_hash] in H.
   destruct (if hv_eqb _ _ then _ else _) as [mr| |s]; cbn [bind] in H; try discriminate.
   inversion H; reflexivity.
 Qed.
@@ -892,7 +931,7 @@ Lemma header_guarded : forall b ks l, ~ Known_C18_stale b -> lite b ks = Ok l ->
 Proof. intros b ks l Hk. apply header_same. apply not_stale_consistent. exact Hk. Qed.
 
 Lemma wire_hash_guarded : forall b ks l,
-  generated b -> ~ Known_C18_stale b ->
+  generated b -> ~ Known_C18_stale b -> all_decodable (b_txs b) ->
   (h_merkle_root (b_hdr b) = hzero -> b_txs b = []) ->
   lite b ks = Ok l ->
   exists c, receive l = Ok c /\ b_hash c = b_hash b /\ b_hdr c = b_hdr b.
@@ -903,7 +942,7 @@ Proof. intros b ks l Hg Hk. apply wire_hash; [exact Hg|apply not_stale_consisten
 Definition hdr0 (mr : hv) : header :=
   mkHeader 2 1000 1 2 mr 3 0 0 0 0 0 0 0 0 0 0 0 0 0 0 0 0 0 0 0 0 0 0 0 0 0.
 (* a transfer from key [f] to key [t] with content hash [c] and signature prefix [s] *)
-Definition wtx (c s f t r : N) : tx := mkTx TY_NORMAL r (100 + s) s 1000 [f] [t] (200 + c) c (Some (Leaf c)).
+Definition wtx (c s f t r : N) : tx := mkTx TY_NORMAL r (100 + s) s 1000 [f] [t] (200 + c) 4 c (Some (Leaf c)).
 Definition wblock (mr : hv) (txs : list tx) : block :=
   mkBlock (hdr0 mr) (block_hash_of (hdr0 mr)) txs.
 
